@@ -17,7 +17,7 @@ BUILD = os.path.join(VERIF, ".build")
 HARNESS = os.path.join(VERIF, "harness")
 EVIDENCE = os.path.join(VERIF, "evidence")
 REPLAYS = os.path.join(VERIF, "replays")
-NCPU = os.cpu_count() or 4
+NCPU = int(os.environ.get("VERIF_WORKERS", 0)) or os.cpu_count() or 4  # VERIF_WORKERS=8: use fewer worker processes
 
 PY = {
     "3.7": "/root/.pyenv/versions/3.7.16/bin/python3.7",
